@@ -1262,3 +1262,11 @@ M('C09-semis-not-consumed-twice', 'C09', F_LUA,
   "                self._pos += 1\n                spaces_and_semis.append(spaces + b';')\n",
   "                self._pos += 2\n                spaces_and_semis.append(spaces + b';')\n",
   expect='R-C09-semis')
+M('C05-revert-fix-nul-strip', 'C05', F_COMPRESS,
+  "    code = bytes(out[:out_i])\n",
+  "    code = bytes(out).strip(b'\\x00')\n",
+  expect='R-C05-post', note='reverts fix 910fadd')
+M('C05-post-strip-one-more', 'C05', F_COMPRESS,
+  "    code = bytes(out[:out_i])\n",
+  "    code = bytes(out[:out_i - 1])\n",
+  expect='R-C05-post')
